@@ -51,13 +51,15 @@ Lemma not_supported_display c : supported c p_Display = false.
 Proof.
   unfold supported.
   change (p_Display =? p_DisplayAlign) with false. change (p_Display =? p_Extent) with false.
-  change (p_Display =? p_Origin) with false. change (p_Display =? p_Position) with false.
+  change (p_Display =? p_Origin) with false.
   change (p_Display =? p_TextAlign) with false. change (p_Display =? p_Color) with false.
   change (p_Display =? p_BackgroundColor) with false.
   destruct (c_pta c), (c_color c), (c_bg c); reflexivity.
 Qed.
 Lemma kept_no_display c m kv : In kv (keep_styles c m) -> fst kv <> p_Display.
 Proof. intros H E. apply In_keep_styles in H as [_ H]. rewrite E, not_supported_display in H. discriminate. Qed.
+Lemma rkept_no_display c m kv : In kv (keep_rstyles c m) -> fst kv <> p_Display.
+Proof. intros H E. apply In_keep_rstyles in H as [_ H]. unfold rsupported in H. rewrite E, not_supported_display in H. discriminate. Qed.
 Lemma body_rel_no_display c al a a' : body_rel c al a a' -> sget (e_styles a') p_Display = None.
 Proof.
   intros [a4 [a5 [H4 [H5 H6]]]]. apply sget_None_keys. intros kv Hkv.
@@ -85,7 +87,7 @@ Proof.
   - rewrite eattrs_clean. cbn. intros s [].
   - cbn [e_styles with_styles]. apply region_layout_final in Hl as [[V _] _]. apply sget_None_keys. intros kv Hkv.
     destruct (V _ Hkv) as [[E | [E | E]] | Hk]; try (rewrite E; discriminate).
-    rewrite eattrs_clean in Hk. cbn [e_styles style_attrs with_styles] in Hk. exact (kept_no_display _ _ _ Hk).
+    rewrite eattrs_clean in Hk. cbn [e_styles rstyle_attrs with_styles] in Hk. exact (rkept_no_display _ _ _ Hk).
   - rewrite Ei. apply sget_None_keys. intros kv Hkv. exact (kept_no_display _ _ _ Hkv).
 Qed.
 
